@@ -545,7 +545,8 @@ def tie_projects(rng, tier):
             out.append({"row": f"tie:{place}:{dk}", "files": files, "target": target})
     for r in fs_shape_corpus(rng, "quick"):
         n = r["row"]
-        if n.startswith(("fs:K23", "fs:cache", "fs:target-spelling", "fs:target-d", "fs:target-link-loop", "fs:target-is-directory", "fs:dir-link-loop")):
+        if n.startswith(("fs:K23", "fs:cache", "fs:target-spelling", "fs:target-d", "fs:target-link-loop", "fs:target-is-directory", "fs:dir-link-loop",
+                         "fs:star-cycle")):      # termination rows are judged through the CLI only (child process + timeout), never in-process
             continue
         if r["opts"] or r.get("cwd"):
             continue
